@@ -171,8 +171,7 @@ end CaddyModel.C07
 namespace CaddyModel.C07
 /-- counter-example lines replayed on the implementation on every run (see Witness.lean) -/
 def witnessLines : List String := [
-  -- Witness.listing_omits_hidden_full_fails: root /srv, hide /srv/secret.txt, browse, GET /
-  "C07 serve 2f77 2f737276 2f7372762f7365637265742e747874 . 101 2f 2f 2f737276:d;2f7372762f612e747874:f1;2f7372762f7365637265742e747874:f2",
-  -- Witness.glob_from_request_full_fails: try_files {http.request.uri.path}, request /\\*, file /srv/\\x
-  "C07 matchfile 2f77 2f737276 -:1:- 0 2f5c2a 2f737276:d;2f7372762f5c78:f1"]
+  -- Witness.listing_hypothesis_needed: root /srv, index name `sub` (a directory), hide /srv/sub/secret.txt,
+  -- browse, GET /  →  the listing of /srv/sub shows secret.txt
+  "C07 serve 2f77 2f737276 2f7372762f7375622f7365637265742e747874 737562 101 2f 2f 2f737276:d;2f7372762f737562:d;2f7372762f7375622f612e747874:f1;2f7372762f7375622f7365637265742e747874:f2"]
 end CaddyModel.C07
